@@ -35,6 +35,7 @@ type srvKnobs struct {
 	rawBody     func(step int, body []byte) []byte // last word on the TL body of step 2/5/8
 	msgIDLow    int                                // low two bits of server msg ids (default 1 = response)
 	stopBefore  int                                // 2, 5 or 8: fall silent instead of sending that step (C12)
+	onStall     func()                             // called at the stall point before falling silent (e.g. deliver transport errors first)
 }
 
 // srvResult is what the scripted server saw and computed.
@@ -152,6 +153,9 @@ func runScriptedInto(conn *fakeConn, k *srvKnobs, r *rand.Rand, stop <-chan stru
 	}
 	res.PQ = pq
 	if k.stopBefore == 2 {
+		if k.onStall != nil {
+			k.onStall()
+		}
 		return
 	}
 	// 2. resPQ
@@ -196,6 +200,9 @@ func runScriptedInto(conn *fakeConn, k *srvKnobs, r *rand.Rand, stop <-chan stru
 		copy(res.NewNonce[:], randBytes(r, 32))
 	}
 	if k.stopBefore == 5 {
+		if k.onStall != nil {
+			k.onStall()
+		}
 		return
 	}
 
@@ -266,6 +273,9 @@ func runScriptedInto(conn *fakeConn, k *srvKnobs, r *rand.Rand, stop <-chan stru
 	}
 	res.GB = new(big.Int).SetBytes(cin.GB)
 	if k.stopBefore == 8 {
+		if k.onStall != nil {
+			k.onStall()
+		}
 		return
 	}
 
